@@ -92,7 +92,8 @@ class Real:
             return v
         r = c17_spec.canon_repr(v, t)
         if r in self.meta["consts"]:
-            return ("tok", self.meta["consts"].index(r))
+            i = self.meta["consts"].index(r)
+            return ("tok", -i if (r.startswith("-") and r[1:2].isdigit()) else i)
         if isinstance(v, t.dtype):
             return ("tok", -2, r)
         if isinstance(v, int) and v >= 1000:
@@ -128,7 +129,8 @@ class Real:
 
     def run(self, hist):
         """hist: list of events ('new', kid, args) | ('enter', i) | ('exit', i) | ('exitexc', i)
-        returns list of ('ok', sparse_obs, swallowed, stale_probe_cache) | ('err', repr)
+        returns list of ('ok', sparse_obs, swallowed, stale_probe_cache) | ('err', repr, sparse_obs_afterwards)
+        | ('skip', sparse_obs)   (event not executed because its construction / enter raised)
 
         probe cache: whenever deterministic_probes is on after an event, a tagged stand-in for the probe vectors is
         put into the (empty) cache, as _inv_quad_logdet does; a stand-in that survives a later enter/exit of a
@@ -137,12 +139,20 @@ class Real:
         objs, objk = [], []
         out = []
         ndp = 0
+        pending = {}        # object index -> number of refused enters whose exit must not be executed
         for e in hist:
+            if e[0] != "new" and (e[1] >= len(objs) or objs[e[1]] is None or (e[0] != "enter" and pending.get(e[1], 0) > 0)):
+                # the construction or the enter this event belongs to was refused: the event does not happen
+                if e[0] != "enter" and pending.get(e[1], 0) > 0:
+                    pending[e[1]] -= 1
+                out.append(("skip", self.observe()))
+                continue
             try:
                 sw = False
                 if e[0] == "new":
-                    objs.append(self.cls[e[1]](*[self.decode(a) for a in e[2]]))
                     objk.append(e[1])
+                    objs.append(None)
+                    objs[-1] = self.cls[e[1]](*[self.decode(a) for a in e[2]])
                 elif e[0] == "enter":
                     objs[e[1]].__enter__()
                 elif e[0] == "exit":
@@ -161,7 +171,16 @@ class Real:
                         self.dp.probe_vectors = ("probes", ndp)
                 out.append(("ok", self.observe(), sw, stale))
             except Exception as ex:
-                out.append(("err", repr(ex)[:100]))
+                try:
+                    after = self.observe()
+                except Exception:
+                    after = [(-1, [])]
+                out.append(("err", repr(ex)[:100], after))
+                if e[0] == "enter":
+                    pending[e[1]] = pending.get(e[1], 0) + 1     # Python: the block is not entered, __exit__ is not called
+                    continue
+                if e[0] == "new":
+                    continue
                 break
         self.reset()
         return out
@@ -255,11 +274,20 @@ def property_failure(meta, hist, obs):
     stack = []
     cur = []
     objk = []
+    news = [e for e in hist if e[0] == "new"]
     for j, e in enumerate(hist):
         if j >= len(obs):
             break
         o = obs[j]
+        if o[0] == "skip":
+            continue
         if o[0] == "err":
+            if e[0] == "new":
+                objk.append(e[1])
+            if e[0] in ("new", "enter") and len(o) > 2 and c17_spec.invalid_args(e[2] if e[0] == "new" else news[e[1]][2]):
+                if o[2] != cur:
+                    return ("failed-enter-changes-settings", j, "refused %s changed settings: %s -> %s" % (e[0], cur, o[2]))
+                continue
             return ("raises", j, "event %d %s raised %s" % (j, e, o[1]))
         new = o[1]
         if o[2]:
@@ -502,6 +530,151 @@ def direct_grid(ctx, meta):
     return out, fam
 
 
+def refused_grid(ctx, meta):
+    """histories in which a construction / enter may legitimately be REFUSED (a negative number among the arguments,
+    placed after valid ones): alone, inside a valid block of the same class (normal and exceptional unwinding),
+    followed by a later valid use, and re-used.  Whether the enter raises is decided by the implementation; the
+    runner then leaves out the matching exit (Python does not call __exit__ when __enter__ raised)."""
+    v = pick_values(ctx, meta, 14)
+    hs = []
+    for k in meta["prim"]:
+        kind = meta["kinds"][k]
+        if kind == "KDtype":
+            valid = [v[0], v[1], v[2]]
+            inv = [[v[3], -1.0, None], [v[3], v[4], -1.0], [-1.0, None, None], [None, v[3], -1.0], [None, None, -2.5], [-1.0, -1.0, -1.0]]
+        elif kind == "KValue" and not k.startswith("_linalg_dtype"):
+            valid = [v[5]]
+            inv = [[-3]]
+        else:
+            continue
+        for a in inv:
+            hs.append([("new", k, a), ("enter", 0), ("exit", 0)])
+            hs.append([("new", k, a), ("enter", 0), ("exit", 0), ("enter", 0), ("exitexc", 0)])
+            for x in ("exit", "exitexc"):
+                hs.append([("new", k, valid), ("new", k, a), ("enter", 0), ("enter", 1), ("exit", 1), (x, 0)])
+            hs.append([("new", k, a), ("enter", 0), ("exit", 0), ("new", k, valid), ("enter", 1), ("exit", 1)])
+            hs.append([("new", k, a), ("new", k, valid), ("enter", 1), ("enter", 0), ("exit", 0), ("enter", 1), ("exit", 1), ("exit", 1)])
+    return hs
+
+
+# ----------------------------------------------------------------------------------------
+# first use in a FRESH process (class attributes never assigned, nothing imported or warned about before)
+
+def first_use_plans(ctx, meta, wide):
+    """one list of histories per fresh process; the first history of each list is the first use of a context in
+    that process, with arguments that differ from the current values of all other settings; it is followed by a
+    second use and a nested use.  wide (search after a broken obligation): every composite in two argument
+    patterns, every private class, the beta features, one representative per kind; otherwise a small dose."""
+    v = pick_values(ctx, meta, 14)
+    prim, comp, kinds = meta["prim"], meta["comp"], meta["kinds"]
+
+    def plan(k, a, b):
+        blk = lambda x: [("new", k, x), ("enter", 0), ("exit", 0)]
+        return [blk(a), blk(a), [("new", k, a), ("new", k, b), ("enter", 0), ("enter", 1), ("exitexc", 1), ("exit", 0)], blk(b)]
+
+    def args(k, j):
+        if k == "linalg_dtypes":
+            return [["torch.double", "torch.float", None], ["torch.float", None, "torch.double"], ["torch.half", None, None]][j % 3]
+        if k == "fast_computations":
+            return [[False, True, False], [True, False, True], [False, False, False]][j % 3]
+        if k in comp:
+            return arg_pool(meta, k)[j % len(arg_pool(meta, k))]
+        if kinds[k] == "KFlag":
+            return [[True], [False]][j % 2]
+        if kinds[k] == "KDtype":
+            return [[v[0], None, v[1]], [None, v[2], None]][j % 2]
+        if k.startswith("_linalg_dtype"):
+            return [["torch.float"], ["torch.half"]][j % 2]
+        return [v[3 + j % 2]]
+    plans = []
+    for k in comp:
+        plans.append(plan(k, args(k, 0), args(k, 1)))
+    if wide:
+        for k in comp:
+            plans.append(plan(k, args(k, 1), args(k, 2)))
+        reps = [c for c in prim if c.startswith("_")] + [c for c in ("default_preconditioner", "deterministic_probes", "debug",
+                                                                        "cholesky_jitter", "cholesky_max_tries", "tridiagonal_jitter") if c in prim]
+        for k in reps:
+            plans.append(plan(k, args(k, 0), args(k, 1)))
+    else:
+        for k in [c for c in ("cholesky_jitter",) if c in prim]:
+            plans.append(plan(k, args(k, 0), args(k, 1)))
+    return plans
+
+
+def _norm_obs(obs):
+    def sp(x):
+        return [(i, [tuple(y) if isinstance(y, list) else y for y in vs]) for i, vs in x]
+    out = []
+    for o in obs:
+        if o[0] == "ok":
+            out.append(("ok", sp(o[1]), o[2], o[3]))
+        elif o[0] == "err":
+            out.append(("err", o[1], sp(o[2])))
+        else:
+            out.append(("skip", sp(o[1])))
+    return out
+
+
+def fresh_worker():
+    """runs in a fresh interpreter: stdin = {"meta":…, "hists":[…]} ; stdout = last line JSON list of observation lists"""
+    d = json.load(sys.stdin)
+    real = Real(d["meta"])
+    res = []
+    for h in d["hists"]:
+        h = [tuple(e) for e in h]
+        res.append(real.run(h))
+    sys.stdout.write("\nC17FRESH " + json.dumps(res) + "\n")
+
+
+def run_fresh(meta, plans):
+    """[(history, observations, first_use: bool)] — each plan in its own interpreter, at most 3 at a time"""
+    import subprocess
+    from concurrent.futures import ThreadPoolExecutor
+
+    def one(hists):
+        try:
+            p = subprocess.run([sys.executable, "-W", "ignore", "-c", "from harness import c17; c17.fresh_worker()"],
+                               input=json.dumps({"meta": meta, "hists": hists}), capture_output=True, text=True, timeout=300,
+                               cwd=common.VERIF)
+            line = [l for l in p.stdout.split("\n") if l.startswith("C17FRESH ")]
+            if not line:
+                return hists, None, (p.stderr or p.stdout)[-400:]
+            return hists, [_norm_obs(o) for o in json.loads(line[-1][9:])], None
+        except Exception as ex:
+            return hists, None, repr(ex)
+    out = []
+    with ThreadPoolExecutor(max_workers=3) as ex:
+        for hists, obs, err in ex.map(one, plans):
+            if obs is None:
+                out.append((hists[0], None, err))
+                continue
+            for j, (h, o) in enumerate(zip(hists, obs)):
+                out.append(([tuple(e) if e[0] != "new" else (e[0], e[1], list(e[2])) for e in h], o, j == 0))
+    return out
+
+
+def search_fresh(ctx, meta, real, wide):
+    """direct predicate on first-use runs in fresh processes; returns (number of violations reported, runs made)"""
+    runs = run_fresh(meta, first_use_plans(ctx, meta, wide))
+    found, seen = 0, set()
+    for h, obs, first in runs:
+        if obs is None:
+            ctx.violation({"kind": "fresh-process-run-failed", "history": h, "error": first}, no_input=True)
+            found += 1
+            continue
+        f = failure_of(meta, real, h, obs)
+        if not f or f[0] in seen:
+            continue
+        seen.add(f[0])
+        ctx.violation({"kind": "scoping-failure", "history": h, "observed": obs, "expected": real.spec.run(h, obs), "what": f[2],
+                       "category": f[0], "python": c17_spec.pretty(meta, h, obs), "fresh_process": True, "first_use_in_process": bool(first),
+                       "constants": dict(enumerate(meta["consts"]))},
+                      key={"what": f[0], "class": next(e[1] for e in h if e[0] == "new"), "event": h[f[1]][0], "fresh": True})
+        found += 1
+    return found, len(runs)
+
+
 # ----------------------------------------------------------------------------------------
 # direct predicate + search
 
@@ -541,7 +714,7 @@ def search_real(ctx, meta, hs, real, limit=3):
         seen.add(js)
         k, evk = who(hm, fm)
         om = real.run(hm)
-        ctx.violation({"kind": "scoping-failure", "history": hm, "observed": om, "expected": real.spec.run(hm), "what": fm[2],
+        ctx.violation({"kind": "scoping-failure", "history": hm, "observed": om, "expected": real.spec.run(hm, om), "what": fm[2],
                        "category": fm[0], "python": c17_spec.pretty(meta, hm, om), "found_as": h if h != hm else None,
                        "constants": dict(enumerate(meta["consts"]))},
                       key={"what": fm[0], "class": k, "event": evk})
@@ -566,8 +739,11 @@ def run(ctx):
         meta_i = c17_spec.introspect_meta(S, B, torch)
         real = Real(meta_i)
         dg, fam = direct_grid(ctx, meta_i)
+        rg = refused_grid(ctx, meta_i)
         hs, _ = histories(ctx, meta_i)
-        found = search_real(ctx, meta_i, dg + hs, real)
+        found = search_real(ctx, meta_i, dg + rg + hs, real)
+        if not found:
+            found = search_fresh(ctx, meta_i, real, wide=True)[0]
         if not found:
             ctx.violation({"kind": "translator-rejected-source", "error": tr_err,
                            "obligation": "coq/C17/gen/Settings.v could not be regenerated; C17_scoping is not re-proved"}, no_input=True)
@@ -578,11 +754,17 @@ def run(ctx):
     real = Real(meta)
     hs, n_ex = histories(ctx, meta)
     dg, fam = direct_grid(ctx, meta)
+    rg = refused_grid(ctx, meta)
+    fam["refused-enter"] = len(rg)
 
     def on_fail(info):
-        return search_real(ctx, meta, dg + hs, real) > 0
+        return search_real(ctx, meta, dg + rg + hs, real) > 0 or search_fresh(ctx, meta, real, wide=True)[0] > 0
     ok = common.proof_stage(ctx, on_fail)
-    direct = search_real(ctx, meta, dg + hs, real) if ok else 0
+    direct = search_real(ctx, meta, dg + rg + hs, real) if ok else 0
+    n_fresh = 0
+    if ok:
+        nf, n_fresh = search_fresh(ctx, meta, real, wide=not ctx.quick)
+        direct += nf
     # correspondence (model vs implementation): the correspondence set + a deterministic sample of the direct grid
     stride = max(1, len(dg) // (1600 if ctx.quick else 12000))
     chs = hs + dg[::stride]
@@ -637,7 +819,7 @@ def run(ctx):
             "reference specification harness/c17_spec.py (Spec; mirrors spec_enter / spec_composite_args of the Coq development; validated against "
             "the proven model on every green run: both agree with the implementation on the same histories)",
             "correspondence harness harness/c17.py (event executor, observers, sparse-diff comparator coq/C17/Check.v)"],
-        "evaluations": len(cases) + len(dg) + len(hs), "distinct_nontrivial": distinct,
+        "evaluations": len(cases) + len(dg) + len(rg) + len(hs) + n_fresh, "distinct_nontrivial": distinct,
         "rule": "correspondence set: well-nested event histories (exhaustive up to length %d over two objects of each representative class kind and composite; "
                 "3 fixed nested/re-entrant patterns for every class; random histories of length 4-30 over all classes, 1 in 5 not well nested) + every "
                 "%d-th history of the direct grid; direct grid: enter/exit skeletons (all balanced shapes with <= %d pairs over two objects, all labellings, "
@@ -647,7 +829,7 @@ def run(ctx):
                 "specification; non-trivial = at least 4 events; distinct by event list"
                 % (6 if ctx.quick else 7, stride, 3 if ctx.quick else 4, nobs, len(meta["prim"])),
         "exhaustive_histories": n_ex, "mismatches": len(mism), "mismatches_reference_semantics": len(mism_spec), "direct_property_failures": direct,
-        "direct_grid": len(dg), "direct_grid_families": fam, "correspondence_cases": len(cases),
+        "direct_grid": len(dg) + len(rg), "direct_grid_families": fam, "fresh_process_runs": n_fresh, "correspondence_cases": len(cases),
         "observer_reads_direct": sum(len(h) for h in dg + hs) * nobs,
         "values_picked_by_seed": pick_values(ctx, meta, 14),
         "classes": len(meta["prim"]) + len(meta["comp"]),
@@ -673,6 +855,6 @@ def replay(rp):
     print(c17_spec.pretty(meta, h, obs))
     print("history:", h)
     print("observed:", obs)
-    print("expected:", real.spec.run(h))
+    print("expected:", real.spec.run(h, obs))
     print("property failure:" if f else "property holds on this history", f[2] if f else "")
     return 1 if f else 0
